@@ -99,7 +99,7 @@ partial def canon : Fmt → Val → Val
   | .pair a b, .pair x y => .pair (canon a x) (canon b y)
   | .vec m _ f, .list vs =>
     let vs' := vs.map (canon f)
-    .list (if m then vs'.foldr insertByKey [] else vs')
+    .list (if m = .map ∨ m = .mapKeep then vs'.foldr insertByKey [] else vs')
   | .opt _ _ f, .some x => .some (canon f x)
   | .tailIf _ a _ _, .pair x y => .pair (canon a x) y
   | _, v => v
